@@ -73,10 +73,13 @@ def mk(H, W, actions, what, view=Shape(1, 3)):
         holder = {}
         inner = make_inner(H, W, actions, view, holder)
         twin = make_inner(H, W, actions, view, holder)
-        wrap = what.startswith('wrapper') or what == 'switch'
+        wrap = what.startswith('wrapper') or what.startswith('switch')
         sig = SIG3 if (wrap or H * W >= 4) else SIG5
         from ..stubs import ORS
-        S, world = lazy_state(sx, H, W, SIG5[:1] if what.endswith('reset') else sig, held_sigma=HELD, orientations=ORS[:1] if what.endswith('reset') else ORS)
+        if what == 'switch-sequence':
+            sig = [e for e in SIG3 if e[0] in ('Floor', 'Key(YELLOW)')]
+        S, world = lazy_state(sx, H, W, SIG5[:1] if what.endswith('reset') else sig, held_sigma=HELD,
+                              orientations=ORS[:1] if (what.endswith('reset') or what == 'switch-sequence') else ORS)
         inner._state = S
         srep = make_state_representation('default', inner.state_space)
         orep = make_observation_representation('default', inner.observation_space)
@@ -86,7 +89,7 @@ def mk(H, W, actions, what, view=Shape(1, 3)):
         sx.cover(what)
         # reads that may have happened before the operation (the adapter must not keep anything of them)
         can_state = H >= 2 and W >= 2
-        prior = sx.choice('prior', (['none', 'both'] if what in ('step', 'wrapper-step', 'switch') else ['none', 'observation', 'state', 'both']) if can_state else ['none', 'observation'])
+        prior = sx.choice('prior', (['none', 'both'] if what in ('step', 'wrapper-step', 'switch') else ['none'] if what == 'switch-sequence' else ['none', 'observation', 'state', 'both']) if can_state else ['none', 'observation'])
         if prior in ('observation', 'both'):
             genv.observation
         if prior in ('state', 'both'):
@@ -132,6 +135,20 @@ def mk(H, W, actions, what, view=Shape(1, 3)):
             else:
                 sx.check(dict_eq(ob, srep.convert(fresh)), 'wrapper-reset-returns-the-state-representation')
             fresh_views('after-reset', fresh)
+        elif what == 'switch-sequence':
+            # any sequence of two switches: afterwards BOTH advertised spaces and BOTH produced views follow the names last requested
+            current = {'state': 'default', 'observation': 'default'}
+            for i in range(2):
+                which = sx.choice(f'which{i}', ['state', 'observation'])
+                name = sx.choice(f'name{i}', ['default', 'no-overlap', 'compact'])
+                (genv.set_state_representation if which == 'state' else genv.set_observation_representation)(name)
+                current[which] = name
+            ns = make_state_representation(current['state'], inner.state_space)
+            no = make_observation_representation(current['observation'], inner.observation_space)
+            sx.check(genv.state_space == outer_space_to_gym_space(ns.space), 'state-space-follows-the-last-requested-name', str(current))
+            sx.check(genv.observation_space == outer_space_to_gym_space(no.space), 'observation-space-follows-the-last-requested-name', str(current))
+            sx.check(dict_eq(genv.state, ns.convert(S)), 'state-uses-the-last-requested-representation', str(current))
+            sx.check(dict_eq(genv.observation, no.convert(twin.functional_observation(fast_copy(S)))), 'observation-uses-the-last-requested-representation', str(current))
         elif what == 'switch':
             name = sx.choice('name', ['default', 'no-overlap', 'compact'])
             which = sx.choice('which', ['state', 'observation'])
@@ -164,7 +181,7 @@ def obligations(tier):
                     continue  # the 8-action space is exercised on 1x2; 2x2 uses the 3-action subset
                 obs.append(Obligation(f'{what}-{aname}-{H}x{W}', mk(H, W, actions, what), dict(what=what, actions=[a.name for a in actions], H=H, W=W)))
     for (H, W) in [(2, 2)] + ([] if q else [(2, 3)]):  # the state representation needs height, width >= 2
-        for what in ('wrapper-step', 'wrapper-reset', 'switch'):
+        for what in ('wrapper-step', 'wrapper-reset', 'switch', 'switch-sequence'):
             acts, an = (SUBSET, 'subset3') if (q and what == 'wrapper-step') else (PERM, 'perm8')
             obs.append(Obligation(f'{what}-{an}-{H}x{W}', mk(H, W, acts, what), dict(what=what, H=H, W=W, actions=an)))
     if not q:
